@@ -99,8 +99,41 @@ for _ in range(20000):
     check(0 <= X["r"] < abs(B) and A == q * B + X["r"], "euclid")
     check(X["t"] == A - B * trunc_div(A, B) and abs(X["t"]) < abs(B) and (X["t"] == 0 or (X["t"] < 0) == (A < 0)), "trunc rem")
 
+# 5. regression suite for the oracles: witness events recorded while a seeded property-breaking change was applied
+#    (seeded/<id>/witness/*.txt, full event lines with the outcomes observed then) must still be flagged by the monitor.
+import glob
+import importlib
+ROOT = os.path.join(os.path.dirname(os.path.abspath(__file__)), "..")
+sys.path.insert(0, os.path.join(ROOT, "bin"))
+import plans  # noqa: E402
+n_wit = 0
+for wf in sorted(glob.glob(os.path.join(ROOT, "seeded", "*", "witness", "*.txt"))):
+    hdr = {}
+    lines = []
+    for l in open(wf):
+        if l.startswith("#"):
+            for kv in l[1:].split():
+                if "=" in kv:
+                    k, v = kv.split("=", 1)
+                    hdr.setdefault(k, v)
+        elif l.strip():
+            lines.append(l)
+    prop = hdr.get("property")
+    if prop == "C11" or prop not in plans.PLANS or not lines:
+        continue
+    P = plans.PLANS[prop]
+    op = lines[0].split()[0]
+    body = plans.ALL_OP_BODY.get(op)
+    modname = P.get("module_by_body", {}).get(body, P["module"])
+    mod = importlib.import_module(modname)
+    mon = mod.Mon(prop, hdr.get("profile", "release"))
+    for l in lines:
+        mon.event(l, l.split())
+    n_wit += 1
+    check(mon.st.nviol >= 1, "witness %s is no longer flagged by %s/%s" % (os.path.relpath(wf, ROOT), modname, prop))
+
 if fails:
     print("selftest: %d FAILURES" % fails)
     sys.exit(1)
-print("selftest: ok (float codec, decimal rounding, rounding model, Euclidean model cross-checked)")
+print("selftest: ok (float codec, decimal rounding, rounding model, Euclidean model cross-checked; %d seeded witnesses still flagged)" % n_wit)
 sys.exit(0)
